@@ -18,6 +18,7 @@ dispatch_data_t dispatch_data_create_with_transform(dispatch_data_t, const struc
 dispatch_queue_attr_t dispatch_queue_attr_make_with_overcommit(dispatch_queue_attr_t, bool);
 extern uint64_t _dispatch_verif_timeout(dispatch_time_t when);
 extern uint64_t _dispatch_verif_time_since_epoch(dispatch_time_t when);
+extern unsigned long _dispatch_verif_source_timer_data(uint64_t *target, uint64_t *deadline, uint64_t interval, uint64_t prev);
 extern void _dispatch_verif_queue_peek(dispatch_queue_t dq, uint16_t *width, uint64_t *state, uint32_t *priority, const char **target_label);
 void dispatch_async_and_wait_f(dispatch_queue_t, void*, dispatch_function_t);
 extern unsigned long _dispatch_verif_compute_missed(uint64_t *target, uint64_t *deadline, uint64_t interval, uint64_t now, unsigned long prev);
@@ -128,6 +129,8 @@ int main(void){
     else if(!strcmp(tok,"AF")){ long i=atol(strtok(NULL," \n")); int f=atoi(strtok(NULL," \n")); printf("%ld\n", idx_of(dispatch_queue_attr_make_with_autorelease_frequency(attr_of(i),(dispatch_autorelease_frequency_t)f))); }
     else if(!strcmp(tok,"CM")){ uint64_t t=strtoull(strtok(NULL," \n"),NULL,10), d=strtoull(strtok(NULL," \n"),NULL,10), iv=strtoull(strtok(NULL," \n"),NULL,10), nw=strtoull(strtok(NULL," \n"),NULL,10); unsigned long pv=strtoul(strtok(NULL," \n"),NULL,10);
       unsigned long r=_dispatch_verif_compute_missed(&t,&d,iv,nw,pv); printf("%lu %" PRIu64 " %" PRIu64 "\n", r, t, d); }
+    else if(!strcmp(tok,"TD")){ uint64_t t=strtoull(strtok(NULL," \n"),NULL,10), d=strtoull(strtok(NULL," \n"),NULL,10), iv=strtoull(strtok(NULL," \n"),NULL,10), nw=strtoull(strtok(NULL," \n"),NULL,10); uint64_t pv=strtoull(strtok(NULL," \n"),NULL,10);
+      fake_up=nw; fake_mono=nw; fake_wall=nw; fake_clocks=1; unsigned long r=_dispatch_verif_source_timer_data(&t,&d,iv,pv); fake_clocks=0; printf("%lu %" PRIu64 " %" PRIu64 "\n", r, t, d); }
     else if(!strcmp(tok,"QC")){ long i=atol(strtok(NULL," \n")); dispatch_queue_t q=dispatch_queue_create("qc",attr_of(i));
       int rel=0; unsigned cls=(unsigned)dispatch_queue_get_qos_class(q,&rel); uint16_t w; uint64_t st; uint32_t pr; const char *tl;
       _dispatch_verif_queue_peek(q,&w,&st,&pr,&tl);
